@@ -117,6 +117,8 @@ def one_run(cfg, path, fault_at=None, fault_prior_at=None, log=None):
     target.fault_at, target.fault_prior_at = fault_at, fault_prior_at
     target.fault_exc = smcrun.FaultInterrupt if cfg.get("fault_kind") == "interrupt" else smcrun.Fault
     extra = {"periodic_parameters": ["p0"]} if cfg.get("periodic") else {}
+    if cfg.get("no_bounds"):
+        extra["prior_bounds"] = None
     a = al.make_aspire(target, dims=cfg["dims"], flow_seed=cfg["seed"] % 1000, **extra)
     pre = cfg.get("auto_pre", "none") if cfg["route"] == "auto" else "none"
     if pre not in ("fit", "refit"):
@@ -175,6 +177,9 @@ def check_cfg(chk, cfg, all_faults=True):
                 # the file already holds a (larger) finished run with the same proposal (a different proposal in the
                 # file is C14's subject)
                 big = dict(cfg, n_samples=cfg["n_samples"] * 3, n_final_samples=None, route="path")
+                if cfg["pre_existing"] == "other_config":
+                    # ... made by an analysis whose CONFIGURATION had entries the present one lacks (declared prior bounds then, none now)
+                    big["no_bounds"] = False
                 one_run(big, p)
             return p
 
@@ -420,6 +425,11 @@ def run(chk: core.Check):
     check_dump_units(chk, r, 150 if quick else 5000)
     for i in range(10 if quick else 150):
         check_cfg(chk, gen_cfg(r, i), all_faults=True)
+    # the file is reused by an analysis with ANOTHER configuration (the earlier one declared prior bounds, this one none): what the file
+    # says after an interruption is the configuration of the run that was interrupted, and the documented resume route works
+    for j in range(2 if quick else 8):
+        cfg = dict(gen_cfg(np.random.default_rng(chk.seed + 1212 + j), 4 * j + 1), pre_existing="other_config", no_bounds=True, periodic=False, route=("path", "auto")[j % 2])
+        check_cfg(chk, cfg, all_faults=False)
 
     def search():
         sub = core.Check(chk.pid, chk.tier, chk.seed)
